@@ -11,7 +11,7 @@
      - returns the TRACE of events of the execution, also when the execution
        ends in an error or runs out of fuel (so every finite prefix of a
        non-terminating run is covered):
-         EvVal a v      the expression node annotated `a` produced value v
+         EvVal a C v    the expression node annotated `a` produced value v; C was the active rounding context
          EvUse a d      the variable read annotated `a` observed the binding made at site `d`
          EvDef a x v    the binding site annotated `a` bound x to v
          EvPhi a x v d  control reached the phi point annotated `a` for x; x holds v, bound at site `d`
@@ -132,7 +132,7 @@ Definition erase_f (f : afunc) : func :=
 
 (* ---------------------------------------------------------------- events, the trace monad *)
 Inductive event :=
-  | EvVal (a : A) (v : value)
+  | EvVal (a : A) (C : ctx) (v : value)
   | EvUse (a : A) (d : option A)
   | EvDef (a : A) (x : ident) (v : value)
   | EvPhi (a : A) (x : ident) (v : value) (d : option A).
@@ -168,7 +168,7 @@ Fixpoint denv_set (D : denv) (x : ident) (a : A) : denv :=
   | (y, b) :: D' => if String.eqb x y then (y, a) :: D' else (y, b) :: denv_set D' x a
   end.
 
-Definition done (a : A) (r : value * store) : M (value * store) := ([EvVal a (fst r)], ROk r).
+Definition done (a : A) (C : ctx) (r : value * store) : M (value * store) := ([EvVal a C (fst r)], ROk r).
 
 Definition use_events (D : denv) (uses : list (ident * A)) : trace :=
   map (fun xa => EvUse (snd xa) (denv_get D (fst xa))) uses.
@@ -224,138 +224,156 @@ Section WithSem.
 Variable N : numops.
 Variable P : program.
 
-Fixpoint ieval (n : nat) (s : env) (D : denv) (mu : store) (C : ctx) (e : aexpr) {struct n}
-  : M (value * store) :=
-  match n with
-  | O => liftr RFuel
-  | S n' =>
+(* One unfolding of every judgement with the recursive calls abstracted (as in
+   Sem.v); the evaluator proper ties the knot on the fuel. *)
+Section Bodies.
+Variable ev : env -> denv -> store -> ctx -> aexpr -> M (value * store).
+Variable evs : env -> denv -> store -> ctx -> list aexpr -> M (list value * store).
+Variable cmpc : env -> denv -> store -> ctx -> value -> list cmpop -> list aexpr -> M (value * store).
+Variable boolc : env -> denv -> store -> ctx -> bool -> list aexpr -> M (value * store).
+Variable opq : env -> store -> ctx -> expr -> res (value * store).   (* Sem.eval at the SAME fuel *)
+Variable veq : store -> value -> value -> res bool.
+
+Definition ieval_body (s : env) (D : denv) (mu : store) (C : ctx) (e : aexpr) : M (value * store) :=
     match e with
     | AVar a x =>
         match env_get s x with
-        | Some v => ([EvUse a (denv_get D x); EvVal a v], ROk (v, mu))
+        | Some v => ([EvUse a (denv_get D x); EvVal a C v], ROk (v, mu))
         | None => mfail NameErr
         end
-    | ANum a v => done a (VNum (NF v), mu)
-    | ARat a p q => if q =? 0 then mfail ValueErr else done a (VNum (num_of_frac p q), mu)
-    | ABool a b => done a (VBool b, mu)
-    | ACtxVal a c => done a (VCtx c, mu)
-    | AOp0 a o => let+ r := liftr (lift (n_nullop N o C)) in done a (VNum r, mu)
+    | ANum a v => done a C (VNum (NF v), mu)
+    | ARat a p q => if q =? 0 then mfail ValueErr else done a C (VNum (num_of_frac p q), mu)
+    | ABool a b => done a C (VBool b, mu)
+    | ACtxVal a c => done a C (VCtx c, mu)
+    | AOp0 a o => let+ r := liftr (lift (n_nullop N o C)) in done a C (VNum r, mu)
     | AOp1 a o e1 =>
-        let+ (va, mu1) := ieval n' s D mu C e1 in
+        let+ (va, mu1) := ev s D mu C e1 in
         let+ x := liftr (as_num va) in
-        let+ r := liftr (lift (n_unop N o C x)) in done a (VNum r, mu1)
+        let+ r := liftr (lift (n_unop N o C x)) in done a C (VNum r, mu1)
     | AOp2 a o e1 e2 =>
-        let+ (va, mu1) := ieval n' s D mu C e1 in
-        let+ (vb, mu2) := ieval n' s D mu1 C e2 in
+        let+ (va, mu1) := ev s D mu C e1 in
+        let+ (vb, mu2) := ev s D mu1 C e2 in
         let+ x := liftr (as_num va) in
         let+ y := liftr (as_num vb) in
-        let+ r := liftr (lift (n_binop N o C x y)) in done a (VNum r, mu2)
+        let+ r := liftr (lift (n_binop N o C x y)) in done a C (VNum r, mu2)
     | AOp3 a o e1 e2 e3 =>
-        let+ (va, mu1) := ieval n' s D mu C e1 in
-        let+ (vb, mu2) := ieval n' s D mu1 C e2 in
-        let+ (vc, mu3) := ieval n' s D mu2 C e3 in
+        let+ (va, mu1) := ev s D mu C e1 in
+        let+ (vb, mu2) := ev s D mu1 C e2 in
+        let+ (vc, mu3) := ev s D mu2 C e3 in
         let+ x := liftr (as_num va) in
         let+ y := liftr (as_num vb) in
         let+ z := liftr (as_num vc) in
-        let+ r := liftr (lift (n_ternop N o C x y z)) in done a (VNum r, mu3)
+        let+ r := liftr (lift (n_ternop N o C x y z)) in done a C (VNum r, mu3)
     | APred a p e1 =>
-        let+ (va, mu1) := ieval n' s D mu C e1 in
-        let+ x := liftr (as_num va) in done a (VBool (n_pred N p x), mu1)
+        let+ (va, mu1) := ev s D mu C e1 in
+        let+ x := liftr (as_num va) in done a C (VBool (n_pred N p x), mu1)
     | ACompare a ops args =>
         match args with
         | [] => mfail OtherErr
         | e1 :: rest =>
-            let+ (va, mu1) := ieval n' s D mu C e1 in
-            let+ r := icmp_chain n' s D mu1 C va ops rest in done a r
+            let+ (va, mu1) := ev s D mu C e1 in
+            let+ r := cmpc s D mu1 C va ops rest in done a C r
         end
-    | AAnd a args => let+ r := ibool_chain n' s D mu C true args in done a r
-    | AOr a args => let+ r := ibool_chain n' s D mu C false args in done a r
+    | AAnd a args => let+ r := boolc s D mu C true args in done a C r
+    | AOr a args => let+ r := boolc s D mu C false args in done a C r
     | ANot a e1 =>
-        let+ (va, mu1) := ieval n' s D mu C e1 in
-        let+ b := liftr (as_bool va) in done a (VBool (negb b), mu1)
+        let+ (va, mu1) := ev s D mu C e1 in
+        let+ b := liftr (as_bool va) in done a C (VBool (negb b), mu1)
     | AIf a c t f =>
-        let+ (vc, mu1) := ieval n' s D mu C c in
+        let+ (vc, mu1) := ev s D mu C c in
         let+ b := liftr (as_bool vc) in
-        let+ r := (if b then ieval n' s D mu1 C t else ieval n' s D mu1 C f) in done a r
+        let+ r := (if b then ev s D mu1 C t else ev s D mu1 C f) in done a C r
     | AMin a es =>
-        let+ (vs, mu1) := ievals n' s D mu C es in
+        let+ (vs, mu1) := evs s D mu C es in
         let+ xs := liftr (as_nums vs) in
-        let+ r := liftr (minmax N false xs) in done a (VNum r, mu1)
+        let+ r := liftr (minmax N false xs) in done a C (VNum r, mu1)
     | AMax a es =>
-        let+ (vs, mu1) := ievals n' s D mu C es in
+        let+ (vs, mu1) := evs s D mu C es in
         let+ xs := liftr (as_nums vs) in
-        let+ r := liftr (minmax N true xs) in done a (VNum r, mu1)
+        let+ r := liftr (minmax N true xs) in done a C (VNum r, mu1)
     | ACtor a k args =>
-        let+ (vs, mu1) := ievals n' s D mu C args in
+        let+ (vs, mu1) := evs s D mu C args in
         let+ xs := liftr (as_nums vs) in
-        let+ c := liftr (lift (n_ctor N k xs)) in done a (VCtx c, mu1)
+        let+ c := liftr (lift (n_ctor N k xs)) in done a C (VCtx c, mu1)
     | AOpaque a e0 uses =>
-        let+ r := (use_events D uses, eval N P n s mu C e0) in done a r
-    end
-  end
+        let+ r := (use_events D uses, opq s mu C e0) in done a C r
+    end.
 
-with ievals (n : nat) (s : env) (D : denv) (mu : store) (C : ctx) (es : list aexpr) {struct n}
-  : M (list value * store) :=
-  match n with
-  | O => liftr RFuel
-  | S n' =>
+Definition ievals_body (s : env) (D : denv) (mu : store) (C : ctx) (es : list aexpr) : M (list value * store) :=
     match es with
     | [] => mret ([], mu)
     | e :: r =>
-        let+ (v, mu1) := ieval n' s D mu C e in
-        let+ (vs, mu2) := ievals n' s D mu1 C r in
+        let+ (v, mu1) := ev s D mu C e in
+        let+ (vs, mu2) := evs s D mu1 C r in
         mret (v :: vs, mu2)
-    end
-  end
+    end.
 
-with icmp_chain (n : nat) (s : env) (D : denv) (mu : store) (C : ctx) (v : value)
-    (ops : list cmpop) (args : list aexpr) {struct n} : M (value * store) :=
-  match n with
-  | O => liftr RFuel
-  | S n' =>
+Definition icmp_chain_body (s : env) (D : denv) (mu : store) (C : ctx) (v : value)
+    (ops : list cmpop) (args : list aexpr) : M (value * store) :=
     match ops, args with
     | [], [] => mret (VBool true, mu)
     | o :: ops', e :: args' =>
         if is_ordering o then
           let+ x := liftr (as_num v) in
-          let+ (w, mu1) := ieval n' s D mu C e in
+          let+ (w, mu1) := ev s D mu C e in
           let+ y := liftr (as_num w) in
           if cmp_test N o x y then
             match ops' with
             | [] => mret (VBool true, mu1)
-            | _ => icmp_chain n' s D mu1 C w ops' args'
+            | _ => cmpc s D mu1 C w ops' args'
             end
           else mret (VBool false, mu1)
         else
-          let+ (w, mu1) := ieval n' s D mu C e in
-          let+ eq := liftr (value_eq N n' mu1 v w) in
+          let+ (w, mu1) := ev s D mu C e in
+          let+ eq := liftr (veq mu1 v w) in
           if (match o with CNe => negb eq | _ => eq end) then
             match ops' with
             | [] => mret (VBool true, mu1)
-            | _ => icmp_chain n' s D mu1 C w ops' args'
+            | _ => cmpc s D mu1 C w ops' args'
             end
           else mret (VBool false, mu1)
     | _, _ => mfail OtherErr
-    end
-  end
+    end.
 
-with ibool_chain (n : nat) (s : env) (D : denv) (mu : store) (C : ctx) (unit : bool)
-    (args : list aexpr) {struct n} : M (value * store) :=
-  match n with
-  | O => liftr RFuel
-  | S n' =>
+Definition ibool_chain_body (s : env) (D : denv) (mu : store) (C : ctx) (unit : bool)
+    (args : list aexpr) : M (value * store) :=
     match args with
     | [] => mret (VBool unit, mu)
     | e :: r =>
-        let+ (v, mu1) := ieval n' s D mu C e in
+        let+ (v, mu1) := ev s D mu C e in
         let+ b := liftr (as_bool v) in
         if Bool.eqb b unit then
           match r with
           | [] => mret (VBool b, mu1)
-          | _ => ibool_chain n' s D mu1 C unit r
+          | _ => boolc s D mu1 C unit r
           end
         else mret (VBool b, mu1)
-    end
+    end.
+End Bodies.
+
+Fixpoint ieval (n : nat) (s : env) (D : denv) (mu : store) (C : ctx) (e : aexpr) {struct n}
+  : M (value * store) :=
+  match n with
+  | O => liftr RFuel
+  | S n' => ieval_body (ieval n') (ievals n') (icmp_chain n') (ibool_chain n') (eval N P n) s D mu C e
+  end
+with ievals (n : nat) (s : env) (D : denv) (mu : store) (C : ctx) (es : list aexpr) {struct n}
+  : M (list value * store) :=
+  match n with
+  | O => liftr RFuel
+  | S n' => ievals_body (ieval n') (ievals n') s D mu C es
+  end
+with icmp_chain (n : nat) (s : env) (D : denv) (mu : store) (C : ctx) (v : value)
+    (ops : list cmpop) (args : list aexpr) {struct n} : M (value * store) :=
+  match n with
+  | O => liftr RFuel
+  | S n' => icmp_chain_body (ieval n') (icmp_chain n') (value_eq N n') s D mu C v ops args
+  end
+with ibool_chain (n : nat) (s : env) (D : denv) (mu : store) (C : ctx) (unit : bool)
+    (args : list aexpr) {struct n} : M (value * store) :=
+  match n with
+  | O => liftr RFuel
+  | S n' => ibool_chain_body (ieval n') (ibool_chain n') s D mu C unit args
   end.
 
 Definition after_phis (ph : phis) (r : ioutcome * store) : M (ioutcome * store) :=
@@ -364,94 +382,88 @@ Definition after_phis (ph : phis) (r : ioutcome * store) : M (ioutcome * store) 
   | IOReturn _ => mret r
   end.
 
-Fixpoint iexec (n : nat) (s : env) (D : denv) (mu : store) (C : ctx) (st : astmt) {struct n}
-  : M (ioutcome * store) :=
-  match n with
-  | O => liftr RFuel
-  | S n' =>
+Section StmtBodies.
+Variable ev : env -> denv -> store -> ctx -> aexpr -> M (value * store).
+Variable ex : env -> denv -> store -> ctx -> astmt -> M (ioutcome * store).
+Variable exb : env -> denv -> store -> ctx -> list astmt -> M (ioutcome * store).
+Variable forl : env -> denv -> store -> ctx -> phis -> apat -> loc -> nat -> list astmt -> M (ioutcome * store).
+Variable idxw : env -> store -> ctx -> value -> list expr -> value -> res store.   (* Sem.index_walk *)
+
+Definition iexec_body (s : env) (D : denv) (mu : store) (C : ctx) (st : astmt) : M (ioutcome * store) :=
     match st with
     | ASAssign p e =>
-        let+ (v, mu1) := ieval n' s D mu C e in
+        let+ (v, mu1) := ev s D mu C e in
         let+ (s', D') := mbind_pat p v s D in
         mret (IONormal s' D', mu1)
     | ASIndexAssign au ad x idx e =>
-        let+ (v, mu1) := ieval n' s D mu C e in
+        let+ (v, mu1) := ev s D mu C e in
         match env_get s x with
         | None => mfail NameErr
         | Some cur =>
-            let+ mu2 := ([EvUse au (denv_get D x)], index_walk N P n' s mu1 C cur idx v) in
+            let+ mu2 := ([EvUse au (denv_get D x)], idxw s mu1 C cur idx v) in
             mret (IONormal s (denv_set D x ad), mu2)
         end
     | ASIf1 ph c body =>
-        let+ (vc, mu1) := ieval n' s D mu C c in
+        let+ (vc, mu1) := ev s D mu C c in
         let+ t := liftr (as_bool vc) in
-        let+ r := (if t then iexec_block n' s D mu1 C body else mret (IONormal s D, mu1)) in
+        let+ r := (if t then exb s D mu1 C body else mret (IONormal s D, mu1)) in
         after_phis ph r
     | ASIf ph c ift iff =>
-        let+ (vc, mu1) := ieval n' s D mu C c in
+        let+ (vc, mu1) := ev s D mu C c in
         let+ t := liftr (as_bool vc) in
-        let+ r := (if t then iexec_block n' s D mu1 C ift else iexec_block n' s D mu1 C iff) in
+        let+ r := (if t then exb s D mu1 C ift else exb s D mu1 C iff) in
         after_phis ph r
     | ASWhile ph c body =>
         let+ _ := (phi_events s D ph, ROk tt) in
-        let+ (vc, mu1) := ieval n' s D mu C c in
+        let+ (vc, mu1) := ev s D mu C c in
         let+ t := liftr (as_bool vc) in
         if t then
-          let+ (o, mu2) := iexec_block n' s D mu1 C body in
+          let+ (o, mu2) := exb s D mu1 C body in
           match o with
           | IOReturn v => mret (IOReturn v, mu2)
-          | IONormal s' D' => iexec n' s' D' mu2 C (ASWhile ph c body)
+          | IONormal s' D' => ex s' D' mu2 C (ASWhile ph c body)
           end
         else mret (IONormal s D, mu1)
     | ASFor ph p it body =>
-        let+ (vi, mu1) := ieval n' s D mu C it in
+        let+ (vi, mu1) := ev s D mu C it in
         let+ (l, _) := liftr (as_list mu1 vi) in
-        ifor_loop n' s D mu1 C ph p l O body
+        forl s D mu1 C ph p l O body
     | ASContext x e body =>
-        let+ (vc, mu1) := ieval n' s D mu CReal e in
+        let+ (vc, mu1) := ev s D mu CReal e in
         match vc with
         | VCtx C' =>
             match x with
             | Some (a, x) =>
                 let+ _ := ([EvDef a x (VCtx C')], ROk tt) in
-                iexec_block n' (env_set s x (VCtx C')) (denv_set D x a) mu1 C' body
-            | None => iexec_block n' s D mu1 C' body
+                exb (env_set s x (VCtx C')) (denv_set D x a) mu1 C' body
+            | None => exb s D mu1 C' body
             end
         | _ => mfail TypeErr
         end
     | ASAssert e =>
-        let+ (v, mu1) := ieval n' s D mu C e in
+        let+ (v, mu1) := ev s D mu C e in
         let+ t := liftr (as_bool v) in
         if t then mret (IONormal s D, mu1) else mfail AssertErr
     | ASEffect e =>
-        let+ (_, mu1) := ieval n' s D mu C e in mret (IONormal s D, mu1)
+        let+ (_, mu1) := ev s D mu C e in mret (IONormal s D, mu1)
     | ASReturn e =>
-        let+ (v, mu1) := ieval n' s D mu C e in mret (IOReturn v, mu1)
+        let+ (v, mu1) := ev s D mu C e in mret (IOReturn v, mu1)
     | ASPass => mret (IONormal s D, mu)
-    end
-  end
+    end.
 
-with iexec_block (n : nat) (s : env) (D : denv) (mu : store) (C : ctx) (b : list astmt) {struct n}
-  : M (ioutcome * store) :=
-  match n with
-  | O => liftr RFuel
-  | S n' =>
+Definition iexec_block_body (s : env) (D : denv) (mu : store) (C : ctx) (b : list astmt) : M (ioutcome * store) :=
     match b with
     | [] => mret (IONormal s D, mu)
     | st :: r =>
-        let+ (o, mu1) := iexec n' s D mu C st in
+        let+ (o, mu1) := ex s D mu C st in
         match o with
         | IOReturn v => mret (IOReturn v, mu1)
-        | IONormal s' D' => iexec_block n' s' D' mu1 C r
+        | IONormal s' D' => exb s' D' mu1 C r
         end
-    end
-  end
+    end.
 
-with ifor_loop (n : nat) (s : env) (D : denv) (mu : store) (C : ctx) (ph : phis) (p : apat)
-    (l : loc) (i : nat) (body : list astmt) {struct n} : M (ioutcome * store) :=
-  match n with
-  | O => liftr RFuel
-  | S n' =>
+Definition ifor_loop_body (s : env) (D : denv) (mu : store) (C : ctx) (ph : phis) (p : apat)
+    (l : loc) (i : nat) (body : list astmt) : M (ioutcome * store) :=
     let+ _ := (phi_events s D ph, ROk tt) in
     match store_get mu l with
     | None => mfail OtherErr
@@ -460,13 +472,32 @@ with ifor_loop (n : nat) (s : env) (D : denv) (mu : store) (C : ctx) (ph : phis)
         | None => mret (IONormal s D, mu)
         | Some x =>
             let+ (s1, D1) := mbind_pat p x s D in
-            let+ (o, mu1) := iexec_block n' s1 D1 mu C body in
+            let+ (o, mu1) := exb s1 D1 mu C body in
             match o with
             | IOReturn v => mret (IOReturn v, mu1)
-            | IONormal s2 D2 => ifor_loop n' s2 D2 mu1 C ph p l (S i) body
+            | IONormal s2 D2 => forl s2 D2 mu1 C ph p l (S i) body
             end
         end
-    end
+    end.
+End StmtBodies.
+
+Fixpoint iexec (n : nat) (s : env) (D : denv) (mu : store) (C : ctx) (st : astmt) {struct n}
+  : M (ioutcome * store) :=
+  match n with
+  | O => liftr RFuel
+  | S n' => iexec_body (ieval n') (iexec n') (iexec_block n') (ifor_loop n') (index_walk N P n') s D mu C st
+  end
+with iexec_block (n : nat) (s : env) (D : denv) (mu : store) (C : ctx) (b : list astmt) {struct n}
+  : M (ioutcome * store) :=
+  match n with
+  | O => liftr RFuel
+  | S n' => iexec_block_body (iexec n') (iexec_block n') s D mu C b
+  end
+with ifor_loop (n : nat) (s : env) (D : denv) (mu : store) (C : ctx) (ph : phis) (p : apat)
+    (l : loc) (i : nat) (body : list astmt) {struct n} : M (ioutcome * store) :=
+  match n with
+  | O => liftr RFuel
+  | S n' => ifor_loop_body (iexec_block n') (ifor_loop n') s D mu C ph p l i body
   end.
 
 (* Sem.call with labels: parameters are binding sites *)
